@@ -58,7 +58,7 @@ def gen_case(rng, k=None, force_n=None, force_idk=None):
 	ks = KmerSpec(k, prefix)
 	dt = ks.index_dtype
 	top = 4 ** k - 1
-	n = force_n or rng.choice([1, 1, 2, 3, 5, 10, 30])
+	n = force_n or rng.choice([1, 1, 2, 3, 5, 10, 30, rng.choice([127, 128, 129, 255, 256, 257, 1100])])
 	sigs = []
 	for i in range(n):
 		c = rng.random()
@@ -82,7 +82,7 @@ def gen_case(rng, k=None, force_n=None, force_idk=None):
 	if annotated:
 		idk = force_idk or rng.choice(['default', 'str', 'pyint', 'int32', 'uint64', 'npstr'])
 		if idk == 'str':
-			pool = list(STRS) + [f'id{j}' for j in range(40)]
+			pool = list(STRS) + [f'id{j}' for j in range(40 + n)]
 			rng.shuffle(pool)
 			ids = pool[:n]
 		elif idk == 'npstr':
@@ -132,13 +132,32 @@ def check_roundtrip(ctx, obj, sigs, ks, ids, meta, comp, desc, path):
 		kw['compression'] = comp[0]
 		if comp[1] is not None:
 			kw['compression_opts'] = comp[1]
+	# the path as str or pathlib.Path; the collection itself, or the same collection first stored in another file and copied
+	# file -> file (the source is then a file-backed collection)
+	import pathlib
+	variant = ['direct', 'direct', 'via-file', 'path-object'][ctx.evals % 4]
+	desc = dict(desc, write_variant=variant)
+	ctx.count(f'write_variant:{variant}')
+	src = None
 	try:
-		dump_signatures(str(path), obj, **kw)
+		if variant == 'via-file':
+			tmp = pathlib.Path(str(path) + '.src')
+			dump_signatures(tmp, obj)
+			src = load_signatures(tmp)
+			dump_signatures(str(path), src, **kw)
+		elif variant == 'path-object':
+			dump_signatures(pathlib.Path(str(path)), obj, **kw)
+		else:
+			dump_signatures(str(path), obj, **kw)
 	except Exception as e:
-		ctx.violation('dump-raises', f'dump_signatures raised {type(e).__name__}: {e}', desc)
+		ctx.violation('dump-raises', f'dump_signatures ({variant}) raised {type(e).__name__}: {e}', desc)
 		return
+	finally:
+		if src is not None:
+			src.close()
+			pathlib.Path(str(path) + '.src').unlink()
 	try:
-		h = load_signatures(str(path))
+		h = load_signatures(str(path) if variant != 'path-object' else pathlib.Path(str(path)))
 	except Exception as e:
 		ctx.violation('load-raises', f'load_signatures of a freshly written file raised {type(e).__name__}: {e}', desc)
 		return
